@@ -283,7 +283,7 @@ def _eval_chunk(args):
                 doc = parse(text)
                 r = doc.rebuild()
                 sym = post(text, r)
-                if sym is None and prop in ("C01", "C03"):
+                if sym is None and prop in ("C01", "C03", "C06", "C18"):
                     # the property speaks about every rebuild of the document, not only the first one
                     r2 = doc.rebuild()
                     if r2 != r:
@@ -370,7 +370,7 @@ def replay_roundtrip(prop, v):
     try:
         r = rebuild(text) if prop != "C15" else None
         sym = POSTS[prop](text, r)
-        if sym is None and prop in ("C01", "C03"):
+        if sym is None and prop in ("C01", "C03", "C06", "C18"):
             from nix_manipulator import parse
 
             doc = parse(text)
